@@ -30,9 +30,9 @@ fn header_strategy(tier: Tier) -> BoxedStrategy<VarHeader> {
     let with_idx = Mode { idx: IdxMode::Arbitrary, ..base.clone() };
     let nat_idx = Mode { idx: IdxMode::Natural, ..base.clone() };
     prop_oneof![
-        95 => var::header(tier, &base),
-        2 => var::header(tier, &with_idx),
-        3 => var::header(tier, &nat_idx),
+        70 => var::header(tier, &base),
+        20 => var::header(tier, &with_idx),
+        10 => var::header(tier, &nat_idx),
     ]
     .boxed()
 }
